@@ -159,13 +159,13 @@ def fmt019 (v : Int) : Bytes :=
 def headerLine (seq : Int) (off size : Nat) : Bytes :=
   fmtD seq ++ [cComma] ++ fmtNat off ++ [cComma] ++ fmtNat size ++ [cNL]
 
-/-- the text of creation time `t` (`time.MarshalText`), an opaque fixed-width token: 'T' 12 digits 'Z' -/
-def timeText (t : Nat) : Bytes := [84] ++ digitsW 12 t ++ [90]
+/-- the text of creation time `t` (`time.MarshalText`), an opaque token: 'T', at least 12 digits, 'Z' -/
+def timeText (t : Nat) : Bytes := 84 :: (padZero 12 (fmtNat t) ++ [90])
 
 /-- `time.UnmarshalText`: only complete tokens parse (no strict prefix of an RFC 3339 text is one) -/
 def parseTime (b : Bytes) : Option Nat :=
   match b with
-  | 84 :: r => if r.length = 13 ∧ (r.take 12).all isDigit ∧ r.drop 12 = [90] then some (digitsVal (r.take 12)) else none
+  | 84 :: r => if 13 ≤ r.length ∧ r.getLast? = some 90 ∧ r.dropLast.all isDigit then some (digitsVal r.dropLast) else none
   | _ => none
 
 /-- `strings.Trim(s, "\r\n")` -/
@@ -398,7 +398,11 @@ def refreshOp (st : FStore) (fs : FS) (now : Nat) : FStore × List Prim :=
   let c3 := c2.setT c2.nextT
   ({ st with cache := c3, opened := true }, p1 ++ p2 ++ p3 ++ p4 ++ p5)
 
-def removePrims : List Prim := [.remove .body, .remove .header, .remove .session, .remove .sender, .remove .target]
+/-- `Reset` removes the index file first (after the `fix:`), then body, session, counters -/
+def removePrims : List Prim := [.remove .header, .remove .body, .remove .session, .remove .sender, .remove .target]
+
+/-- the pinned original order: body before header -/
+def removePrimsOrig : List Prim := [.remove .body, .remove .header, .remove .session, .remove .sender, .remove .target]
 
 /-- `Reset`: cache.Reset, Close, remove the five files, Refresh (two clock readings) -/
 def resetOp (st : FStore) (fs : FS) (now : Nat) : FStore × List Prim :=
